@@ -11,10 +11,11 @@
    - uncaught Python exceptions are the outcome [RRaise k] and kill the generator; afterwards __next__ returns None;
    - self.variables is an association list in dict insertion order, self.invalid the list of its keys in insertion order.
 
-   The [legacy] switches reproduce the code before the two proposed repairs (notes/C15/fix-1.diff, fix-2.diff):
-   legacy_reset = the namespace is reset to g also when a candidate is skipped as already taken;
-   legacy_words = the word limit pops from an empty list (IndexError) when the value has no words.
-   The extracted Model runs with both switches off unless the case asks otherwise.  No proofs in this file. *)
+   The [legacy] switches reproduce the code before the three proposed repairs (notes/C15/fix-1.diff, fix-2.diff, fix-3.diff):
+   legacy_reset  = the namespace is reset to g also when a candidate is skipped as already taken;
+   legacy_words  = the word limit pops from an empty list (IndexError) when the value has no words;
+   legacy_passes = the pass counter of the give-up bound is never reset (it also counts the successful requests).
+   The extracted Model runs with the switches off unless the case asks otherwise.  No proofs in this file. *)
 From Coq Require Import List ZArith NArith Bool.
 Import ListNotations.
 From Verif Require Import Val.
@@ -342,7 +343,7 @@ Definition add_extension (ext : str) (filename : str) : str :=
   if has_ext filename then filename else filename ++ ext.
 
 (* ---- one candidate: the body of the two for loops up to string.Template.substitute ---- *)
-Record cfg := { cs : option (str * str); ext : str; legacy_reset : bool; legacy_words : bool }.
+Record cfg := { cs : option (str * str); ext : str; legacy_reset : bool; legacy_words : bool; legacy_passes : bool }.
 
 (* K_Bail = ValueError('Filename could not be created.'), K_Placeholder = ValueError from string.Template,
    K_Index = IndexError from the word-limit loop *)
@@ -433,7 +434,10 @@ Fixpoint wild_loop (fuel : nat) (c : cfg) (wild : list str) (g : ns) (num : N) (
   | S f =>
       let passes := (passes + 1)%N in
       match wild_for c g num vars inval wild with
-      | FYield name num' vars' inval' => (RName name, {| ph := PWild wild g num' passes; vars := vars'; inval := inval' |})
+      | FYield name num' vars' inval' =>
+          (* yield result; passes = 0   -- the give-up bound counts the passes of one request (fix-3); before the repair the
+             counter ran over the whole life of the generator *)
+          (RName name, {| ph := PWild wild g num' (if legacy_passes c then passes else 0%N); vars := vars'; inval := inval' |})
       | FExhausted num' vars' =>
           if (100 <? passes)%N then (RRaise K_Bail, dead vars' inval)
           else wild_loop f c wild g num' vars' inval passes
@@ -516,11 +520,11 @@ Definition of_ent (e : fileent) : val :=
   match e with FStr s => VL [VI 0; of_str s] | FList l => VL [VI 1; VL (map of_str l)] end.
 Definition v_unmodelled : val := VL [VI (-4)].
 
-(* case: (spec charsub variables extension invalid requests legacy_reset legacy_words)
+(* case: (spec charsub variables extension invalid requests legacy_reset legacy_words legacy_passes)
    observation: (files ((result variables) ...) invalid)  *)
 Definition run_case (v : val) : val :=
   match v with
-  | VL [spec; csv; vars0; extv; inv; VL reqs; VI lr; VI lw] =>
+  | VL [spec; csv; vars0; extv; inv; VL reqs; VI lr; VI lw; VI lp] =>
       match get_str spec, get_charsub csv, get_ns vars0, get_str extv, getL inv, mapM get_ns reqs with
       | Some spec, Some csub, Some vars0, Some e, Some inv, Some reqs =>
           match mapM get_str inv with
@@ -529,7 +533,8 @@ Definition run_case (v : val) : val :=
               match parse_filenames spec with
               | None => v_unmodelled
               | Some files =>
-                  let c := {| cs := csub; ext := e; legacy_reset := negb (lr =? 0); legacy_words := negb (lw =? 0) |} in
+                  let c := {| cs := csub; ext := e; legacy_reset := negb (lr =? 0); legacy_words := negb (lw =? 0);
+                              legacy_passes := negb (lp =? 0) |} in
                   let '(out, s) := run c {| ph := PFresh files; vars := vars0; inval := inv |} reqs in
                   VL [VL (map of_ent files);
                       VL (map (fun rv => VL [of_res (fst rv); of_ns (snd rv)]) out);
